@@ -135,6 +135,7 @@ whereT = sym('whereT', (T,), T, lambda a: _np.where(a)[0])
 fnorm = sym('fnorm', (T,), R, lambda a: float(_np.linalg.norm(a)))
 cov = sym('cov', (T,), T, lambda X: _np.atleast_2d(_np.cov(X, rowvar=False)))
 covb = sym('covb', (T,), T, lambda X: _np.atleast_2d(_np.cov(X, rowvar=False, bias=True)))
+atleast2d = sym('atleast2d', (T,), T, lambda a: _np.atleast_2d(a))
 pinv = sym('pinv', (T,), T, lambda a: _np.linalg.pinv(a))
 inv = sym('inv', (T,), T, lambda a: _np.linalg.inv(a))
 logabsdet = sym('logabsdet', (T,), R, lambda a: float(_np.linalg.slogdet(a)[1]))
@@ -171,6 +172,7 @@ sdivl = sym('sdivl', (R, T), T, lambda c, a: c / a)          # scalar / array
 sdivr = sym('sdivr', (T, R), T, lambda a, c: a / c)          # array / scalar
 
 colscale = sym('colscale', (T, T), T, lambda A, y: A * y)                 # A * y  with A (d, n), y (n,): column j scaled by y[j]
+coldiv = sym('coldiv', (T, T), T, lambda A, y: A / y)                   # A / y  with A (d, n), y (n,): column j divided by y[j]
 rowscale = sym('rowscale', (T, T), T, lambda A, c: A * c)                  # A * c  with A (n, d), c (n, 1): row i scaled by c[i, 0]
 colscale2 = sym('colscale2', (T, T), T, lambda A, r: A * r)               # A * r  with r of shape (1, n)
 addaxis0 = sym('addaxis0', (T,), T, lambda v: v[None, :])
@@ -360,6 +362,8 @@ ax('psd_eigvals_nonneg', 'math', [a], z3.Implies(z3.And(psd(a), a == tr(a)), z3.
 ax('eigh_reconstruct', 'lib', [a], z3.Implies(a == tr(a), mm(colscale(eigvecs(a), eigvals(a)), tr(eigvecs(a))) == a),
    [z3.MultiPattern(eigvecs(a), eigvals(a))], ['eigvecs', 'eigvals'], gen=dict(a='spd(d)'))
 ax('chol_factor', 'lib', [a], z3.Implies(is_pd(a), mm(chol(a), tr(chol(a))) == a), [z3.MultiPattern(chol(a))], ['chol'], gen=dict(a='spd(d)'))
+ax('atleast2d_cov', 'def', [a], atleast2d(cov(a)) == cov(a), [z3.MultiPattern(atleast2d(cov(a)))], ['atleast2d', 'cov'], gen=dict(a='mat(n,d)'))
+ax('atleast2d_covb', 'def', [a], atleast2d(covb(a)) == covb(a), [z3.MultiPattern(atleast2d(covb(a)))], ['atleast2d', 'covb'], gen=dict(a='mat(n,d)'))
 ax('array_equal_eq', 'def', [a, b], z3.Implies(array_equal(a, b), a == b), [z3.MultiPattern(array_equal(a, b))], ['array_equal'])
 # ---- math: positive definite matrices (Lean: lean/itml_rank_one.lean)
 ax('pd_quad_pos', 'math', [a, v], z3.Implies(z3.And(pd(a), nonzero(v)), dot(vm(v, a), v) > 0), [z3.MultiPattern(dot(vm(v, a), v))], ['dot', 'vm'],
